@@ -7,8 +7,11 @@
           (`modelledAlgs`, Model/Acord2.lean) to the fixed list of idling strategies (`loop_filter_is_rounds`,
           `modelled_loop_is_rounds`).
   Part 2  the soundness instance (`Sound5`).
-  Part 3  the simulation relation `KL` and the step monotonicities.
-  Part 4  the `MonoMachine` instance, the final theorems, non-vacuity.
+  Part 3  the simulation relation `KL` and the step monotonicities: AcordHdiff, AcordVector, AcordZderived,
+          AcordAzimuth (`prepare` and `execute`), bookkeeping PROVED; AcordIntersection a hypothesis (`aiMono`,
+          reduced to facts about the point list by `aiMono_of_facts`, proved for `cls = []`).
+  Part 4  the `MonoMachine` instance (`monoMachine5`), the final theorems (`acord2_modelled_monotone_partial`,
+          `acord2_modelled_execute_monotone_or_stops_earlier_partial`), non-vacuity.
 -/
 import Gama.Lemmas.C06Sched
 import Gama.Lemmas.C06Inter
@@ -2345,7 +2348,7 @@ theorem book_mono (fuel : Nat) (Rai : AiPriv ℝ → AiPriv ℝ → Prop) (o o' 
 
 end zdbook
 
-/-! ### AcordAzimuth: step monotonicity of `execute` (the single pass in key order), `prepare` as a hypothesis -/
+/-! ### AcordAzimuth: step monotonicity of `execute` (the single pass in key order), given that of `prepare` -/
 
 section azimuth
 variable {ι : Type} [DecidableEq ι]
@@ -2460,7 +2463,7 @@ theorem azEmb_filter {pd0' : PD ι ℝ} {l l' : List (AzEntry ι ℝ)} (h : AzEm
     · exact ih
     · exact .drop ⟨h0 _ hb.1, h0 _ hb.2⟩ ih
 
-/-- **what is NOT proved here**: `AcordAzimuth::prepare` is monotone — the map of azimuths built from `o`
+/-- `AcordAzimuth::prepare` is monotone (proved below: `azPrepMono_of_exact`) — the map of azimuths built from `o`
     (pairs with an azimuth, not between points with xy; median azimuth, median distance) is embedded in key order in
     the map built from `o' ⊇ o` on a point list that knows at least as much.  (For exact data the medians of a pair
     agree, so a pair that is usable — `distance ≠ 0` — from `o` is usable from `o'`.) -/
@@ -2492,7 +2495,8 @@ theorem azIdle_cases (fuel : Nat) (lt : ι → ι → Bool) (xN : ℝ) (od : Lis
     unfold idle; rw [if_neg (show ¬ (azAlg fuel lt xN od).completed g = true from hc)]
     rfl
 
-/-- **AcordAzimuth is monotone in the observation set**, given that its `prepare` is (`AzPrepMono`) -/
+/-- **AcordAzimuth is monotone in the observation set**, given that its `prepare` is (`AzPrepMono`, discharged by
+    `azPrepMono_of_exact`) -/
 theorem az_stepMono (fuel : Nat) (lt : ι → ι → Bool) (xN : ℝ) (Rai : AiPriv ℝ → AiPriv ℝ → Prop) (T : Truth ι)
     (IRai : AiPriv ℝ → Prop) (o o' : ObsSet ι) (hprep : AzPrepMono fuel lt T o o') :
     StepMono (Sound5 T xN IRai) (KL fuel Rai o o') (idle (azAlg fuel lt xN o.od)) (idle (azAlg fuel lt xN o'.od)) := by
@@ -2551,6 +2555,527 @@ theorem az_stepMono (fuel : Nat) (lt : ι → ι → Bool) (xN : ℝ) (Rai : AiP
 
 end azimuth
 
+/-! ### AcordAzimuth::prepare is monotone (`AzPrepMono` proved for a strict total order on point ids) -/
+
+section azprep
+variable {ι : Type} [DecidableEq ι]
+
+/-- `PointID::operator<` is a strict total order (C07, `Gama/Lemmas/C07PointId.lean`) -/
+structure StrictTotal (lt : ι → ι → Bool) : Prop where
+  irrefl : ∀ a, lt a a = false
+  trans : ∀ a b c, lt a b = true → lt b c = true → lt a c = true
+  tri : Tri lt
+
+theorem pairLt_iff {lt : ι → ι → Bool} (h : StrictTotal lt) (p q : ι × ι) :
+    pairLt lt p q = true ↔ lt p.1 q.1 = true ∨ (p.1 = q.1 ∧ lt p.2 q.2 = true) := by
+  unfold pairLt
+  constructor
+  · intro hp
+    simp only [Bool.or_eq_true, Bool.and_eq_true, Bool.not_eq_true'] at hp
+    rcases hp with h1 | ⟨h1, h2⟩
+    · exact Or.inl h1
+    · by_cases h3 : lt p.1 q.1 = true
+      · exact Or.inl h3
+      · exact Or.inr ⟨h.tri _ _ (by simpa using h3) h1, h2⟩
+  · rintro (h1 | ⟨h1, h2⟩)
+    · simp [h1]
+    · simp [h1, h.irrefl, h2]
+
+theorem pairLt_irrefl {lt : ι → ι → Bool} (h : StrictTotal lt) (p : ι × ι) : ¬ pairLt lt p p = true := by
+  rw [pairLt_iff h]
+  rintro (h1 | ⟨_, h1⟩)
+  · rw [h.irrefl] at h1; cases h1
+  · rw [h.irrefl] at h1; cases h1
+
+theorem pairLt_trans {lt : ι → ι → Bool} (h : StrictTotal lt) (p q r : ι × ι) (h1 : pairLt lt p q = true)
+    (h2 : pairLt lt q r = true) : pairLt lt p r = true := by
+  rw [pairLt_iff h] at h1 h2 ⊢
+  rcases h1 with a | ⟨a1, a2⟩ <;> rcases h2 with b | ⟨b1, b2⟩
+  · exact Or.inl (h.trans _ _ _ a b)
+  · exact Or.inl (b1 ▸ a)
+  · exact Or.inl (a1 ▸ b)
+  · exact Or.inr ⟨a1.trans b1, h.trans _ _ _ a2 b2⟩
+
+/-- the key of an entry of `azimuths_` -/
+def akey (e : AzEntry ι ℝ) : ι × ι := (e.a, e.b)
+
+/-- strictly increasing keys -/
+def KSorted (lt : ι → ι → Bool) (l : List (ι × ι)) : Prop := l.Pairwise (fun p q => pairLt lt p q = true)
+
+/-- `std::map::operator[]` on the key list -/
+def insertKey (lt : ι → ι → Bool) (k : ι × ι) : List (ι × ι) → List (ι × ι)
+  | [] => [k]
+  | x :: xs => if pairLt lt k x then k :: x :: xs else if pairLt lt x k then x :: insertKey lt k xs else x :: xs
+
+theorem azPush_keys (lt : ι → ι → Bool) (a b : ι) (v : ℝ) : ∀ m : List (AzEntry ι ℝ),
+    (azPush lt a b v m).map akey = insertKey lt (a, b) (m.map akey) := by
+  intro m
+  induction m with
+  | nil => rfl
+  | cons e es ih =>
+    simp only [azPush, List.map_cons, insertKey, akey]
+    split_ifs <;> simp [akey, ih]
+
+theorem azPushIfPresent_keys (lt : ι → ι → Bool) (a b : ι) (v : ℝ) : ∀ m : List (AzEntry ι ℝ),
+    (azPushIfPresent lt a b v m).map akey = m.map akey := by
+  intro m
+  induction m with
+  | nil => rfl
+  | cons e es ih =>
+    simp only [azPushIfPresent]
+    split_ifs <;> simp [akey, ih]
+
+theorem mem_insertKey {lt : ι → ι → Bool} (h : StrictTotal lt) (k : ι × ι) : ∀ (l : List (ι × ι)) (x : ι × ι),
+    x ∈ insertKey lt k l ↔ x = k ∨ x ∈ l := by
+  intro l
+  induction l with
+  | nil => intro x; simp [insertKey]
+  | cons y ys ih =>
+    intro x
+    simp only [insertKey]
+    split_ifs with h1 h2
+    · simp
+    · simp only [List.mem_cons, ih]; tauto
+    · have : k = y := pair_tri h.tri _ _ (by simpa using h1) (by simpa using h2)
+      subst this; simp
+
+theorem sorted_insertKey {lt : ι → ι → Bool} (h : StrictTotal lt) (k : ι × ι) : ∀ l : List (ι × ι),
+    KSorted lt l → KSorted lt (insertKey lt k l) := by
+  intro l
+  induction l with
+  | nil => intro _; simp [insertKey, KSorted]
+  | cons y ys ih =>
+    intro hs
+    unfold KSorted at hs ⊢
+    obtain ⟨h1, h2⟩ := List.pairwise_cons.mp hs
+    simp only [insertKey]
+    split_ifs with c1 c2
+    · refine List.pairwise_cons.mpr ⟨fun z hz => ?_, hs⟩
+      rcases List.mem_cons.mp hz with rfl | hz
+      · exact c1
+      · exact pairLt_trans h _ _ _ c1 (h1 z hz)
+    · refine List.pairwise_cons.mpr ⟨fun z hz => ?_, ih h2⟩
+      rcases (mem_insertKey h k ys z).mp hz with rfl | hz
+      · exact c2
+      · exact h1 z hz
+    · exact hs
+
+/-- the key an observation between `f` and `t` is filed under: `if (to < from) swap(from, to)` -/
+def nkey (lt : ι → ι → Bool) (f t : ι) : ι × ι := if lt t f then (t, f) else (f, t)
+
+theorem azNormalize_key (lt : ι → ι → Bool) (f t : ι) (v : ℝ) :
+    ((azNormalize lt f t v).1, (azNormalize lt f t v).2.1) = nkey lt f t := by
+  unfold azNormalize nkey; split <;> rfl
+
+def azKeyStep (lt : ι → ι → Bool) (l : List (ι × ι)) (o : Obs ι ℝ) : List (ι × ι) :=
+  match o with
+  | .azimuth f t _ => insertKey lt (nkey lt f t) l
+  | _ => l
+
+theorem azCollectStep_keys (lt : ι → ι → Bool) (m : List (AzEntry ι ℝ)) (o : Obs ι ℝ) :
+    (azCollectStep lt m o).map akey = azKeyStep lt (m.map akey) o := by
+  cases o with
+  | azimuth f t v => simp only [azCollectStep, azKeyStep, azPush_keys, azNormalize_key]
+  | _ => rfl
+
+theorem azCollectFold_keys (lt : ι → ι → Bool) : ∀ (obs : List (Obs ι ℝ)) (m : List (AzEntry ι ℝ)),
+    (obs.foldl (azCollectStep lt) m).map akey = obs.foldl (azKeyStep lt) (m.map akey) := by
+  intro obs
+  induction obs with
+  | nil => intro m; rfl
+  | cons o os ih => intro m; simp only [List.foldl_cons]; rw [ih, azCollectStep_keys]
+
+theorem azKeyFold {lt : ι → ι → Bool} (h : StrictTotal lt) : ∀ (obs : List (Obs ι ℝ)) (l : List (ι × ι)),
+    KSorted lt l → KSorted lt (obs.foldl (azKeyStep lt) l) ∧
+      ∀ k, k ∈ obs.foldl (azKeyStep lt) l ↔ k ∈ l ∨ ∃ f t v, Obs.azimuth f t v ∈ obs ∧ nkey lt f t = k := by
+  intro obs
+  induction obs with
+  | nil => intro l hs; exact ⟨hs, fun k => by simp⟩
+  | cons o os ih =>
+    intro l hs
+    simp only [List.foldl_cons]
+    cases o with
+    | azimuth f t v =>
+      obtain ⟨a, b⟩ := ih (insertKey lt (nkey lt f t) l) (sorted_insertKey h _ l hs)
+      refine ⟨a, fun k => ?_⟩
+      show k ∈ os.foldl (azKeyStep lt) (insertKey lt (nkey lt f t) l) ↔ _
+      rw [b, mem_insertKey h]
+      constructor
+      · rintro ((rfl | h1) | ⟨f', t', v', h1, h2⟩)
+        · exact Or.inr ⟨f, t, v, by simp, rfl⟩
+        · exact Or.inl h1
+        · exact Or.inr ⟨f', t', v', by simp [h1], h2⟩
+      · rintro (h1 | ⟨f', t', v', h1, h2⟩)
+        · exact Or.inl (Or.inr h1)
+        · rcases List.mem_cons.mp h1 with h1 | h1
+          · cases h1; exact Or.inl (Or.inl h2.symm)
+          · exact Or.inr ⟨f', t', v', h1, h2⟩
+    | distance f t v =>
+      obtain ⟨a, b⟩ := ih l hs
+      refine ⟨a, fun k => ?_⟩
+      show k ∈ os.foldl (azKeyStep lt) l ↔ _
+      rw [b]; simp
+    | sdistance f t v a1 a2 =>
+      obtain ⟨a, b⟩ := ih l hs
+      refine ⟨a, fun k => ?_⟩
+      show k ∈ os.foldl (azKeyStep lt) l ↔ _
+      rw [b]; simp
+    | zangle f t v a1 a2 =>
+      obtain ⟨a, b⟩ := ih l hs
+      refine ⟨a, fun k => ?_⟩
+      show k ∈ os.foldl (azKeyStep lt) l ↔ _
+      rw [b]; simp
+    | other f t =>
+      obtain ⟨a, b⟩ := ih l hs
+      refine ⟨a, fun k => ?_⟩
+      show k ∈ os.foldl (azKeyStep lt) l ↔ _
+      rw [b]; simp
+
+theorem azCollectDistStep_eq (lt : ι → ι → Bool) (m : List (AzEntry ι ℝ)) (f t : ι) (v : ℝ) :
+    azCollectDistStep lt m (.distance f t v) = azPushIfPresent lt (nkey lt f t).1 (nkey lt f t).2 v m := by
+  show (if lt t f then azPushIfPresent lt t f v m else azPushIfPresent lt f t v m) = _
+  unfold nkey
+  by_cases c : lt t f = true <;> simp [c]
+
+theorem azCollectDistStep_keys (lt : ι → ι → Bool) (m : List (AzEntry ι ℝ)) (o : Obs ι ℝ) :
+    (azCollectDistStep lt m o).map akey = m.map akey := by
+  cases o with
+  | distance f t v => rw [azCollectDistStep_eq, azPushIfPresent_keys]
+  | _ => rfl
+
+theorem azCollectDistFold_keys (lt : ι → ι → Bool) : ∀ (obs : List (Obs ι ℝ)) (m : List (AzEntry ι ℝ)),
+    (obs.foldl (azCollectDistStep lt) m).map akey = m.map akey := by
+  intro obs
+  induction obs with
+  | nil => intro m; rfl
+  | cons o os ih => intro m; simp only [List.foldl_cons]; rw [ih, azCollectDistStep_keys]
+
+/-- the keys of the map `prepare` leaves: the pairs with an azimuth, in key order, without the pairs between points
+    with xy -/
+theorem azPrepare_keys (fuel : Nat) (lt : ι → ι → Bool) (pd : PD ι ℝ) (obs : List (Obs ι ℝ)) :
+    (azPrepare fuel lt pd obs).map akey =
+      (obs.foldl (azKeyStep lt) []).filter (fun k => !((pd k.1).bxy && (pd k.2).bxy)) := by
+  unfold azPrepare azCollectDist
+  simp only [List.map_map]
+  have e1 : (akey ∘ azMedianDistance : AzEntry ι ℝ → ι × ι) = akey := by
+    funext e; unfold azMedianDistance; simp only [Function.comp]; split <;> rfl
+  rw [e1, azCollectDistFold_keys, List.map_map]
+  have e2 : (akey ∘ azMedianValue fuel : AzEntry ι ℝ → ι × ι) = akey := by funext e; rfl
+  rw [e2]
+  unfold azRemoveKnown azCollect
+  have e3 := azCollectFold_keys lt obs []
+  simp only [List.map_nil] at e3
+  rw [← e3, List.filter_map]
+  rfl
+
+theorem pushIfPresent_mem {lt : ι → ι → Bool} (h : StrictTotal lt) (a b : ι) (v : ℝ) : ∀ (m : List (AzEntry ι ℝ)),
+    ∀ x ∈ azPushIfPresent lt a b v m, x ∈ m ∨ akey x = (a, b) := by
+  intro m
+  induction m with
+  | nil => intro x hx; simp [azPushIfPresent] at hx
+  | cons e es ih =>
+    intro x hx
+    simp only [azPushIfPresent] at hx
+    split_ifs at hx with c1 c2
+    · exact Or.inl hx
+    · rcases List.mem_cons.mp hx with rfl | hx
+      · exact Or.inl (by simp)
+      · rcases ih x hx with h1 | h1
+        · exact Or.inl (by simp [h1])
+        · exact Or.inr h1
+    · have hk : (a, b) = (e.a, e.b) := pair_tri h.tri _ _ (by simpa using c1) (by simpa using c2)
+      rcases List.mem_cons.mp hx with rfl | hx
+      · exact Or.inr hk.symm
+      · exact Or.inl (by simp [hx])
+
+/-- `azimuths_[key].values.push_back(v)` reaches the entry when the key is present (sorted map) -/
+theorem pushIfPresent_hit {lt : ι → ι → Bool} (h : StrictTotal lt) (a b : ι) (v : ℝ) : ∀ (m : List (AzEntry ι ℝ)),
+    KSorted lt (m.map akey) → (a, b) ∈ m.map akey →
+    ∃ x ∈ azPushIfPresent lt a b v m, akey x = (a, b) ∧ x.values ≠ [] := by
+  intro m
+  induction m with
+  | nil => intro _ hm; simp at hm
+  | cons e es ih =>
+    intro hs hm
+    unfold KSorted at hs
+    simp only [List.map_cons] at hs hm
+    obtain ⟨h1, h2⟩ := List.pairwise_cons.mp hs
+    simp only [azPushIfPresent]
+    split_ifs with c1 c2
+    · exfalso
+      rcases List.mem_cons.mp hm with hm | hm
+      · have : pairLt lt (a, b) (a, b) = true := by
+          have e' : (e.a, e.b) = (a, b) := hm.symm
+          rw [e'] at c1; exact c1
+        exact pairLt_irrefl h _ this
+      · exact pairLt_irrefl h _ (pairLt_trans h _ _ _ c1 (h1 _ hm))
+    · rcases List.mem_cons.mp hm with hm | hm
+      · exfalso
+        have e' : (e.a, e.b) = (a, b) := hm.symm
+        rw [e'] at c2; exact pairLt_irrefl h _ c2
+      · obtain ⟨x, hx, hk, hv⟩ := ih h2 hm
+        exact ⟨x, by simp [hx], hk, hv⟩
+    · have hk : (a, b) = (e.a, e.b) := pair_tri h.tri _ _ (by simpa using c1) (by simpa using c2)
+      exact ⟨{ e with values := e.values ++ [v] }, by simp, hk.symm, by simp⟩
+
+theorem pushIfPresent_keep (lt : ι → ι → Bool) (a b : ι) (v : ℝ) : ∀ (m : List (AzEntry ι ℝ)),
+    ∀ x ∈ m, x.values ≠ [] → ∃ y ∈ azPushIfPresent lt a b v m, akey y = akey x ∧ y.values ≠ [] := by
+  intro m
+  induction m with
+  | nil => intro x hx; simp at hx
+  | cons e es ih =>
+    intro x hx hv
+    simp only [azPushIfPresent]
+    split_ifs with c1 c2
+    · exact ⟨x, hx, rfl, hv⟩
+    · rcases List.mem_cons.mp hx with rfl | hx
+      · exact ⟨x, by simp, rfl, hv⟩
+      · obtain ⟨y, hy, h1, h2⟩ := ih x hx hv
+        exact ⟨y, by simp [hy], h1, h2⟩
+    · rcases List.mem_cons.mp hx with rfl | hx
+      · exact ⟨{ x with values := x.values ++ [v] }, by simp, rfl, by simp⟩
+      · exact ⟨x, by simp [hx], rfl, hv⟩
+
+theorem collectDist_keep (lt : ι → ι → Bool) : ∀ (obs : List (Obs ι ℝ)) (m : List (AzEntry ι ℝ)),
+    ∀ x ∈ m, x.values ≠ [] → ∃ y ∈ obs.foldl (azCollectDistStep lt) m, akey y = akey x ∧ y.values ≠ [] := by
+  intro obs
+  induction obs with
+  | nil => intro m x hx hv; exact ⟨x, hx, rfl, hv⟩
+  | cons o os ih =>
+    intro m x hx hv
+    simp only [List.foldl_cons]
+    have hstep : ∃ y ∈ azCollectDistStep lt m o, akey y = akey x ∧ y.values ≠ [] := by
+      cases o with
+      | distance f t v => rw [azCollectDistStep_eq]; exact pushIfPresent_keep lt _ _ v m x hx hv
+      | _ => exact ⟨x, hx, rfl, hv⟩
+    obtain ⟨y, hy, h1, h2⟩ := hstep
+    obtain ⟨z, hz, h3, h4⟩ := ih _ y hy h2
+    exact ⟨z, hz, h3.trans h1, h4⟩
+
+/-- a distance between the ends of a pair that is in the map gives the pair a non-empty value list -/
+theorem collectDist_hit {lt : ι → ι → Bool} (h : StrictTotal lt) (k : ι × ι) (f t : ι) (v : ℝ)
+    (hk : nkey lt f t = k) : ∀ (obs : List (Obs ι ℝ)) (m : List (AzEntry ι ℝ)),
+    KSorted lt (m.map akey) → k ∈ m.map akey → Obs.distance f t v ∈ obs →
+    ∃ y ∈ obs.foldl (azCollectDistStep lt) m, akey y = k ∧ y.values ≠ [] := by
+  intro obs
+  induction obs with
+  | nil => intro m _ _ hd; simp at hd
+  | cons o os ih =>
+    intro m hs hm hd
+    simp only [List.foldl_cons]
+    rcases List.mem_cons.mp hd with hd | hd
+    · subst hd
+      rw [azCollectDistStep_eq, hk]
+      obtain ⟨x, hx, h1, h2⟩ := pushIfPresent_hit h k.1 k.2 v m hs (by simpa using hm)
+      obtain ⟨y, hy, h3, h4⟩ := collectDist_keep lt os _ x hx h2
+      exact ⟨y, hy, h3.trans h1, h4⟩
+    · exact ih _ (by rw [azCollectDistStep_keys]; exact hs) (by rw [azCollectDistStep_keys]; exact hm) hd
+
+/-- a pair that got a distance has a distance observation between its ends -/
+theorem azPrepare_distance_obs {lt : ι → ι → Bool} (h : StrictTotal lt) (fuel : Nat) (pd : PD ι ℝ)
+    (obs : List (Obs ι ℝ)) (e : AzEntry ι ℝ) (he : e ∈ azPrepare fuel lt pd obs) (hd0 : e.distance ≠ 0) :
+    ∃ f t v, Obs.distance f t v ∈ obs ∧ nkey lt f t = akey e := by
+  by_contra hno
+  -- every entry with this key keeps an empty value list and distance 0
+  have hinv := azCollect_inv h.tri (fun _ _ _ => True) obs (fun _ _ _ _ => trivial)
+  have J0 : ∀ x ∈ (azRemoveKnown pd (azCollect lt obs)).map (azMedianValue fuel),
+      akey x = akey e → x.values = [] ∧ x.distance = 0 := by
+    intro x hx _
+    obtain ⟨x0, hx0, rfl⟩ := List.mem_map.mp hx
+    exact ⟨rfl, (hinv x0 (List.mem_filter.mp hx0).1).1.2⟩
+  have Jfold : ∀ (l : List (Obs ι ℝ)) (m : List (AzEntry ι ℝ)), (∀ o ∈ l, o ∈ obs) →
+      (∀ x ∈ m, akey x = akey e → x.values = [] ∧ x.distance = 0) →
+      ∀ x ∈ l.foldl (azCollectDistStep lt) m, akey x = akey e → x.values = [] ∧ x.distance = 0 := by
+    intro l
+    induction l with
+    | nil => intro m _ hm; exact hm
+    | cons o os ih =>
+      intro m hl hm
+      simp only [List.foldl_cons]
+      apply ih _ (fun o' ho' => hl o' (by simp [ho']))
+      cases o with
+      | distance f t v =>
+        rw [azCollectDistStep_eq]
+        intro x hx hkx
+        rcases pushIfPresent_mem h _ _ v m x hx with h1 | h1
+        · exact hm x h1 hkx
+        · exact absurd ⟨f, t, v, hl _ (by simp), by rw [← hkx, h1]⟩ hno
+      | _ => exact hm
+  unfold azPrepare azCollectDist at he
+  obtain ⟨x, hx, rfl⟩ := List.mem_map.mp he
+  have hkx : akey x = akey (azMedianDistance x) := by unfold azMedianDistance; split <;> rfl
+  obtain ⟨hv, hd⟩ := Jfold obs _ (fun _ h => h) J0 x hx hkx
+  apply hd0
+  unfold azMedianDistance
+  simp [hv, hd]
+
+/-- two key-sorted lists: if every entry of the first has both ends known or a match in the second, the first is
+    embedded in the second in key order -/
+theorem azEmb_of_sorted {lt : ι → ι → Bool} (h : StrictTotal lt) (pd' : PD ι ℝ) :
+    ∀ (l' l : List (AzEntry ι ℝ)), KSorted lt (l.map akey) → KSorted lt (l'.map akey) →
+      (∀ e ∈ l, AzBoth pd' e ∨ ∃ e' ∈ l', AzMatch e e') → AzEmb pd' l l' := by
+  have key_of_match : ∀ e e' : AzEntry ι ℝ, AzMatch e e' → akey e' = akey e := by
+    intro e e' hm; unfold akey; rw [hm.1, hm.2.1]
+  intro l'
+  induction l' with
+  | nil =>
+    intro l hs _ hc
+    induction l with
+    | nil => exact .nil _
+    | cons e t ih =>
+      have hs2 : KSorted lt (t.map akey) := by
+        unfold KSorted at hs ⊢
+        simp only [List.map_cons] at hs
+        exact (List.pairwise_cons.mp hs).2
+      rcases hc e (by simp) with hb | ⟨m, hm, _⟩
+      · exact .drop hb (ih hs2 (fun x hx => hc x (by simp [hx])))
+      · simp at hm
+  | cons e' t' ih' =>
+    intro l hs hs' hc
+    unfold KSorted at hs'
+    simp only [List.map_cons] at hs'
+    obtain ⟨hs1', hs2'⟩ := List.pairwise_cons.mp hs'
+    induction l with
+    | nil => exact .nil _
+    | cons e t ih =>
+      have hs0 := hs
+      unfold KSorted at hs
+      simp only [List.map_cons] at hs
+      obtain ⟨hs1, hs2⟩ := List.pairwise_cons.mp hs
+      rcases hc e (by simp) with hb | ⟨m, hm, hmatch⟩
+      · exact .drop hb (ih hs2 (fun x hx => hc x (by simp [hx])))
+      · rcases List.mem_cons.mp hm with rfl | hm'
+        · refine .both hmatch (ih' t hs2 hs2' (fun x hx => ?_))
+          rcases hc x (by simp [hx]) with hb | ⟨m2, hm2, hmatch2⟩
+          · exact Or.inl hb
+          · rcases List.mem_cons.mp hm2 with rfl | hm2
+            · exfalso
+              have e1 := key_of_match _ _ hmatch
+              have e2 := key_of_match _ _ hmatch2
+              have := hs1 (akey x) (List.mem_map.mpr ⟨x, hx, rfl⟩)
+              rw [← e2, e1] at this
+              exact pairLt_irrefl h _ this
+            · exact Or.inr ⟨m2, hm2, hmatch2⟩
+        · refine .skip e' (ih' (e :: t) hs0 hs2' (fun x hx => ?_))
+          rcases hc x hx with hb | ⟨m2, hm2, hmatch2⟩
+          · exact Or.inl hb
+          · rcases List.mem_cons.mp hm2 with rfl | hm2
+            · exfalso
+              -- key m2 < key m = key e ≤ key x = key m2
+              have e1 := key_of_match _ _ hmatch
+              have e2 := key_of_match _ _ hmatch2
+              have lt1 : pairLt lt (akey m2) (akey e) = true := by
+                rw [← e1]; exact hs1' _ (List.mem_map.mpr ⟨m, hm', rfl⟩)
+              rcases List.mem_cons.mp hx with rfl | hx
+              · rw [e2] at lt1; exact pairLt_irrefl h _ lt1
+              · have lt2 := hs1 (akey x) (List.mem_map.mpr ⟨x, hx, rfl⟩)
+                have := pairLt_trans h _ _ _ lt1 lt2
+                rw [e2] at this; exact pairLt_irrefl h _ this
+            · exact Or.inr ⟨m2, hm2, hmatch2⟩
+
+theorem spObs_sublist_of_forall₂ : ∀ (a b : List (Cluster ι ℝ)), List.Forall₂ ClusterLe a b →
+    (spObs a).Sublist (spObs b) := by
+  intro a b hab
+  induction hab with
+  | nil => exact List.Sublist.refl _
+  | @cons c c' l l' hx _ ih =>
+    cases c <;> cases c' <;> simp only [ClusterLe] at hx
+    · obtain ⟨rfl, h2⟩ := hx
+      exact List.Sublist.append h2 ih
+    · exact ih
+    · exact ih
+
+theorem spObs_sublist_of_sublist : ∀ (a b : List (Cluster ι ℝ)), a.Sublist b → (spObs a).Sublist (spObs b) := by
+  intro a b hab
+  induction hab with
+  | slnil => exact List.Sublist.refl _
+  | @cons l1 l2 c _ ih =>
+    cases c with
+    | standpoint s obs => exact ih.trans (List.sublist_append_right _ _)
+    | hdiffs _ => exact ih
+    | vectors _ => exact ih
+  | @cons_cons l1 l2 c _ ih =>
+    cases c with
+    | standpoint s obs => exact List.Sublist.append (List.Sublist.refl _) ih
+    | hdiffs _ => exact ih
+    | vectors _ => exact ih
+
+theorem OdLe.spObs {od od' : List (Cluster ι ℝ)} (h : OdLe od od') : (spObs od).Sublist (spObs od') := by
+  obtain ⟨l, h1, h2⟩ := h
+  exact (spObs_sublist_of_forall₂ od l h1).trans (spObs_sublist_of_sublist l od' h2)
+
+/-- **`AcordAzimuth::prepare` is monotone in the observation set** on exact observations, for a strict total order
+    on the point ids -/
+theorem azPrepMono_of_exact {lt : ι → ι → Bool} (h : StrictTotal lt) (T : Truth ι) (xN : ℝ) (n : Nat)
+    (o o' : ObsSet ι) (hle : ObsSet.le o o') (hex : ExactObs T xN o.od) (hex' : ExactObs T xN o'.od) :
+    AzPrepMono (n + 1) lt T o o' := by
+  intro pd pd' _ _ hfl
+  have hsub := hle.od.spObs
+  have ks := azKeyFold h (spObs o.od) [] (by simp [KSorted])
+  have ks' := azKeyFold h (spObs o'.od) [] (by simp [KSorted])
+  have kk := azPrepare_keys (n + 1) lt pd (spObs o.od)
+  have kk' := azPrepare_keys (n + 1) lt pd' (spObs o'.od)
+  apply azEmb_of_sorted h pd'
+  · rw [kk]; exact List.Pairwise.filter _ ks.1
+  · rw [kk']; exact List.Pairwise.filter _ ks'.1
+  intro e he
+  by_cases hb : AzBoth pd' e
+  · exact Or.inl hb
+  right
+  -- the key of `e` is a key of the large map
+  have hke : akey e ∈ (azPrepare (n + 1) lt pd (spObs o.od)).map akey := List.mem_map.mpr ⟨e, he, rfl⟩
+  rw [kk, List.mem_filter] at hke
+  obtain ⟨f, t, v, hobs, hk⟩ := ((ks.2 (akey e)).mp hke.1).resolve_left (by simp)
+  have hke' : akey e ∈ (azPrepare (n + 1) lt pd' (spObs o'.od)).map akey := by
+    rw [kk', List.mem_filter]
+    refine ⟨(ks'.2 (akey e)).mpr (Or.inr ⟨f, t, v, hsub.subset hobs, hk⟩), ?_⟩
+    unfold AzBoth at hb
+    show (!((pd' e.a).bxy && (pd' e.b).bxy)) = true
+    cases h1 : (pd' e.a).bxy <;> cases h2 : (pd' e.b).bxy <;> simp_all
+  by_cases hd0 : e.distance = 0
+  · obtain ⟨e', he', hk'⟩ := List.mem_map.mp hke'
+    have : e'.a = e.a ∧ e'.b = e.b := by
+      unfold akey at hk'; exact ⟨(Prod.ext_iff.mp hk').1, (Prod.ext_iff.mp hk').2⟩
+    exact ⟨e', he', this.1, this.2, fun hne => absurd hd0 hne⟩
+  · -- the small entry is usable: a distance between its ends, the true one, not zero
+    obtain ⟨f2, t2, v2, hdo, hk2⟩ := azPrepare_distance_obs h (n + 1) pd (spObs o.od) e he hd0
+    have hok := azPrepare_ok h.tri T xN pd (spObs o.od) n hex.az hex.dist e he hd0
+    have hhd : hd T e.a e.b ≠ 0 := by rw [← hok.1]; exact hd0
+    -- the large map before the medians of the distances
+    have hm2' : KSorted lt (((azRemoveKnown pd' (azCollect lt (spObs o'.od))).map (azMedianValue (n + 1))).map akey) ∧
+        akey e ∈ ((azRemoveKnown pd' (azCollect lt (spObs o'.od))).map (azMedianValue (n + 1))).map akey := by
+      have e0 : ((azRemoveKnown pd' (azCollect lt (spObs o'.od))).map (azMedianValue (n + 1))).map akey =
+          (azPrepare (n + 1) lt pd' (spObs o'.od)).map akey := by
+        unfold azPrepare azCollectDist
+        simp only [List.map_map]
+        have e1 : (akey ∘ azMedianDistance : AzEntry ι ℝ → ι × ι) = akey := by
+          funext e; unfold azMedianDistance; simp only [Function.comp]; split <;> rfl
+        rw [e1, azCollectDistFold_keys, List.map_map]
+      rw [e0]
+      exact ⟨by rw [kk']; exact List.Pairwise.filter _ ks'.1, hke'⟩
+    obtain ⟨y, hy, hky, hvy⟩ := collectDist_hit h (akey e) f2 t2 v2 hk2 (spObs o'.od) _ hm2'.1 hm2'.2
+      (hsub.subset hdo)
+    have hvals := azCollectDist_inv h.tri (fun a b w => w = hd T a b) (fun _ => True) (fun _ _ _ => trivial)
+      (spObs o'.od) (fun f t v ho => ⟨hex'.dist f t v ho, (hex'.dist f t v ho).trans (hd_symm T f t)⟩)
+      ((azRemoveKnown pd' (azCollect lt (spObs o'.od))).map (azMedianValue (n + 1)))
+      (fun x hx => by
+        obtain ⟨x0, _, rfl⟩ := List.mem_map.mp hx
+        exact ⟨trivial, fun w hw => by simp [azMedianValue] at hw⟩)
+    have hya : y.a = e.a ∧ y.b = e.b := by
+      unfold akey at hky; exact ⟨(Prod.ext_iff.mp hky).1, (Prod.ext_iff.mp hky).2⟩
+    refine ⟨azMedianDistance y, ?_, ?_⟩
+    · unfold azPrepare; exact List.mem_map.mpr ⟨y, hy, rfl⟩
+    · have hemp : y.values.isEmpty = false := by simpa using hvy
+      have hmed : median2 y.values = hd T y.a y.b := C06L.median2_const _ _ hvy (hvals y hy).2
+      refine ⟨?_, ?_, fun _ => ?_⟩
+      · unfold azMedianDistance; simp only [hemp]; exact hya.1
+      · unfold azMedianDistance; simp only [hemp]; exact hya.2
+      · unfold azMedianDistance; simp only [hemp]
+        show median2 y.values ≠ 0
+        rw [hmed, hya.1, hya.2]; exact hhd
+
+end azprep
+
 /-! ## Part 4: the `MonoMachine` instance and the theorems about the modelled Acord2 -/
 
 section final
@@ -2578,7 +3103,8 @@ noncomputable def strategies5T (fuel : Nat) (lt : ι → ι → Bool) (xN : ℝ)
 /-- all hypotheses of the monotonicity theorems about the two observation sets, collected -/
 structure MonoHyps (lt : ι → ι → Bool) (T : Truth ι) (xN : ℝ) (IRai : AiPriv ℝ → Prop)
     (Rai : AiPriv ℝ → AiPriv ℝ → Prop) (n : Nat) (o o' : ObsSet ι) : Prop where
-  tri : Tri lt
+  /-- `PointID::operator<` is a strict total order -/
+  ord : StrictTotal lt
   /-- `o ⊆ o'` -/
   le : ObsSet.le o o'
   /-- both sets are exact observations of the same true coordinates -/
@@ -2597,9 +3123,6 @@ structure MonoHyps (lt : ι → ι → Bool) (T : Truth ι) (xN : ℝ) (IRai : A
       monotone on the simulation relation -/
   aiMono : StepMono (Sound5 T xN IRai) (KL (n + 1) Rai o o')
     (idle (aiAlg (n + 1) lt o.keys o.extra xN o.cls)) (idle (aiAlg (n + 1) lt o'.keys o'.extra xN o'.cls))
-  /-- HYPOTHESIS (not proved here): `AcordAzimuth::prepare` is monotone (`AzPrepMono`); the pass of `execute` is
-      proved (`az_stepMono`) -/
-  azPrep : AzPrepMono (n + 1) lt T o o'
 
 /-- **the `MonoMachine` instance** for the modelled Acord2: five strategies + bookkeeping, sound and monotone -/
 theorem monoMachine5 {lt : ι → ι → Bool} {T : Truth ι} {xN : ℝ} {IRai : AiPriv ℝ → Prop}
@@ -2612,28 +3135,29 @@ theorem monoMachine5 {lt : ι → ι → Bool} {T : Truth ι} {xN : ℝ} {IRai :
     obtain ⟨a0, ha0, rfl⟩ := List.mem_map.mp ha
     rcases x.2 with hx | hx
     · show Sound5 T xN IRai (a0 x.1 s)
-      rw [hx]; exact strategies5_sound H.tri T xN IRai n o H.exact H.aiSound a0 ha0 s hs
+      rw [hx]; exact strategies5_sound H.ord.tri T xN IRai n o H.exact H.aiSound a0 ha0 s hs
     · show Sound5 T xN IRai (a0 x.1 s)
-      rw [hx]; exact strategies5_sound H.tri T xN IRai n o' H.exact' H.aiSound' a0 ha0 s hs
+      rw [hx]; exact strategies5_sound H.ord.tri T xN IRai n o' H.exact' H.aiSound' a0 ha0 s hs
   · intro a ha x y s s' hxy hs hs' hk
     obtain ⟨a0, ha0, rfl⟩ := List.mem_map.mp ha
     show KL (n + 1) Rai o o' (a0 x.1 s) (a0 y.1 s')
     rw [hxy.1, hxy.2]
     simp only [strategies5, List.mem_cons, List.not_mem_nil, or_false] at ha0
     rcases ha0 with rfl | rfl | rfl | rfl | rfl
-    · exact az_stepMono (n + 1) lt xN Rai T IRai o o' H.azPrep s s' hs hs' hk
+    · exact az_stepMono (n + 1) lt xN Rai T IRai o o'
+        (azPrepMono_of_exact H.ord T xN n o o' H.le H.exact H.exact') s s' hs hs' hk
     · exact hd_stepMono (n + 1) Rai _ o o' H.le H.fuelHd H.fuelHd' s s' hs hs' hk
     · exact zd_stepMono (n + 1) Rai _ o o' H.le s s' hs hs' hk
     · exact vec_stepMono (n + 1) Rai _ o o' H.le H.fuelVec H.fuelVec' s s' hs hs' hk
     · exact H.aiMono s s' hs hs' hk
 
-/-- **clause 6 for the modelled Acord2, rounds level** (`_partial`: AcordIntersection's step monotonicity and the
-    monotonicity of `AcordAzimuth::prepare` are hypotheses, see `MonoHyps`; AcordHdiff, AcordZderived, AcordVector,
-    the pass of AcordAzimuth and the bookkeeping are proved).  Two sets of exact observations `o ⊆ o'`, the same
+/-- **clause 6 for the modelled Acord2, rounds level** (`_partial`: AcordIntersection's soundness and step
+    monotonicity are hypotheses, see `MonoHyps`; AcordAzimuth, AcordHdiff, AcordZderived, AcordVector and the
+    bookkeeping are proved).  Two sets of exact observations `o ⊆ o'`, the same
     sound start state: after EVERY number `k` of rounds of `Acord2::execute` the two states are related by the
     simulation relation — in particular everything known from `o` is known from `o'` — and both are sound.
 
-    Full statement: the same without `aiMono` and `azPrep`. -/
+    Full statement: the same without `aiSound`, `aiSound'`, `aiMono`. -/
 theorem acord2_modelled_monotone_partial {lt : ι → ι → Bool} {T : Truth ι} {xN : ℝ} {IRai : AiPriv ℝ → Prop}
     {Rai : AiPriv ℝ → AiPriv ℝ → Prop} {n : Nat} {o o' : ObsSet ι} (H : MonoHyps lt T xN IRai Rai n o o')
     (slope : Bool) (g0 : G5 ι) (h0 : Sound5 T xN IRai g0) (hinit : KL (n + 1) Rai o o' g0 g0) :
@@ -2948,8 +3472,13 @@ theorem eSound : Sound5 exT 0 (fun _ => True) eG := by
   · intro h; simp [eG, HdAlg.fresh] at h
   · intro h; simp [eG, VecAlg.fresh] at h
 
+theorem eOrd : StrictTotal eLt := by
+  refine ⟨fun a => by simp [eLt], fun a b c h1 h2 => ?_, exTri⟩
+  simp only [eLt, decide_eq_true_eq] at h1 h2 ⊢
+  omega
+
 theorem eHyps : MonoHyps eLt exT 0 (fun _ => True) (fun _ _ => True) 3 eO eO' := by
-  refine ⟨exTri, eLe, exObs, eObs', ?_, ?_, ?_, ?_, ?_, ?_, ?_, ?_⟩
+  refine ⟨eOrd, eLe, exObs, eObs', ?_, ?_, ?_, ?_, ?_, ?_, ?_⟩
   · simp [hdKeys, eO, exOd, hdAll, dedup]
   · simp [hdKeys, eO', hdAll, dedup]
   · simp [vecKeys, eO, exOd, vecAll, dedup]
@@ -2957,10 +3486,6 @@ theorem eHyps : MonoHyps eLt exT 0 (fun _ => True) (fun _ _ => True) 3 eO eO' :=
   · exact fun g h => aiNil_sound exT 0 _ (fun _ => trivial) 4 eLt _ _ 0 g h
   · exact fun g h => aiNil_sound exT 0 _ (fun _ => trivial) 4 eLt _ _ 0 g h
   · exact aiNil_mono 4 eLt 0 _ eO eO' rfl rfl
-  · intro pd pd' _ _ _
-    have e : azPrepare 4 eLt pd (spObs eO.od) = [] := by
-      simp [eO, exOd, spObs, azPrepare, azCollect, azCollectDist, azRemoveKnown]
-    rw [e]; exact .nil _
 
 theorem eFresh : Fresh eG := ⟨rfl, rfl, rfl, rfl, rfl, rfl, rfl, rfl, rfl, rfl⟩
 
@@ -3018,12 +3543,5 @@ example :
     eFresh eInit _ _ (acord_execute_terminates false _ _ eG 0).2.1 (acord_execute_terminates false _ _ eG 0).2.1
 
 end examples
-
-#print axioms Gama.C06M.acord2_modelled_monotone_partial
-#print axioms Gama.C06M.acord2_modelled_execute_monotone_or_stops_earlier_partial
-#print axioms Gama.C06M.modelled_execute_is_rounds
-#print axioms Gama.C06M.monoMachine5
-#print axioms Gama.C06M.eRun'
-#print axioms Gama.C06M.eHyps
 
 end Gama.C06M
